@@ -6,6 +6,7 @@ import (
 	"encoding/binary"
 	"fmt"
 	"io"
+	"math"
 
 	libshare "github.com/celestiaorg/go-square/v4/share"
 	"github.com/celestiaorg/rsmt2d"
@@ -126,6 +127,9 @@ func (rid RowID) Verify(edsSize int) error {
 func (rid RowID) Validate() error {
 	if rid.RowIndex < 0 {
 		return fmt.Errorf("%w: RowIndex: %d < 0", ErrInvalidID, rid.RowIndex)
+	}
+	if rid.RowIndex > math.MaxUint16 {
+		return fmt.Errorf("%w: RowIndex: %d does not fit the 16-bit field of the identifier", ErrInvalidID, rid.RowIndex)
 	}
 	return rid.EdsID.Validate()
 }
